@@ -23,8 +23,22 @@ CORPUS = os.path.join(os.path.dirname(os.path.abspath(__file__)), '..', 'corpus'
 BASE_IP = int(ipaddress.IPv4Address('11.0.0.1'))
 
 
+_IP_S, _IP_I = {}, {}
+
+
 def ip_str(a):
-    return str(ipaddress.IPv4Address(a))
+    s = _IP_S.get(a)
+    if s is None:
+        s = _IP_S[a] = str(ipaddress.IPv4Address(a))
+        _IP_I[s] = a
+    return s
+
+
+def ip_int(s):
+    a = _IP_I.get(s)
+    if a is None:
+        a = _IP_I[s] = int(ipaddress.IPv4Address(s))
+    return a
 
 
 def hx(i):
@@ -58,7 +72,7 @@ class Impl:
 
     @staticmethod
     def triple(p):
-        return [int.from_bytes(p.node_id, 'big'), int(ipaddress.IPv4Address(p.address)), p.udp_port or 0]
+        return [int.from_bytes(p.node_id, 'big'), ip_int(p.address), p.udp_port or 0]
 
     def table(self):
         return [{'lo': b.range_min, 'hi': b.range_max, 'peers': [self.triple(p) for p in b.peers]}
@@ -71,7 +85,7 @@ class Impl:
         """what add_peer may ask the peer manager about contacts of the table, read off the REAL PeerManager"""
         good, stale, fresh = [], [], []
         for p in self.rt.get_peers():
-            k = key_str(int(ipaddress.IPv4Address(p.address)), p.udp_port or 0)
+            k = key_str(ip_int(p.address), p.udp_port or 0)
             if self.pm.contact_triple_is_good(p.node_id, p.address, p.udp_port) is True:
                 good.append(k)
             lr = self.pm.get_last_replied(p.address, p.udp_port)
@@ -86,7 +100,7 @@ class Impl:
 
         async def probe(p):
             probed.append(self.triple(p))
-            if key_str(int(ipaddress.IPv4Address(p.address)), p.udp_port or 0) in dead:
+            if key_str(ip_int(p.address), p.udp_port or 0) in dead:
                 if remote_exc:
                     raise RemoteException('boom')
                 raise asyncio.TimeoutError()
@@ -575,7 +589,7 @@ def old_join_witness(model):
 def main(run):
     model = vlib.Model('C11')
     rng = run.rng
-    n_cases = vlib.scaled(run.tier, 330, 6000)
+    n_cases = vlib.scaled(run.tier, 240, 6000)
     run.rule = ('one case = one history (30..140 operations, thorough ..260) on a fresh table: adds whose ids share a chosen number of '
                 'prefix bits (0..384) with the own id or sit on exact boundaries of the CURRENT buckets (lo, hi-1, '
                 'midpoint+-1, split point), refreshes, re-adds with changed address or changed id, adds/removes without '
